@@ -150,6 +150,35 @@ def run_case(case):
         if got2[0] not in ('FAIL', 'PARTIAL'):
             return {'bucket': 'nesting-failing-input:%s' % (got2[0] if got2[0] != 'EXC' else 'EXC:' + got2[1]),
                     'got': [str(x)[:160] for x in got2], 'case': case, 'input': bad_text, 'spilled': info['spilled']}, info
+        # the meaning of a reference does not depend on how deep it sits either: through a grammar that
+        # extends this one and overrides R and K, the reference at the bottom means the override
+        if g.header and case['inner'] in ('ref', 'cls', 'letwhere'):
+            child = sut.fresh_name('vfc17c_')
+            cdesc = "grammar %s extends %s\nR = 'U'\nclass K {\n    v: 'U'\n}\n" % (child, g.header)
+            if case['ign']:
+                cdesc += "ignore ';'\n"
+            cmod, cerr = sut.compile_grammar(cdesc, budget=60.0)
+            try:
+                if cmod is None:
+                    return {'bucket': 'extends-compile:%s' % (cerr[1] if len(cerr) > 1 else cerr[0]), 'got': list(cerr), 'case': case}, info
+                ctext = text.replace('TT', 'TU') if case['inner'] == 'letwhere' else text.replace('T', 'U')
+                cwant = want
+                if case['inner'] != 'letwhere':
+                    cwant = ('OK', want[1].replace("s'T'", "s'U'"), len(ctext))
+                if case['ign']:
+                    ctext = ctext.replace('  ', ' ;')
+                gotc = sut.run(cmod, None, ctext, budget=8.0)
+                if case['inner'] == 'letwhere':
+                    # R = 'U' no longer equals the bound 'T': the predicate must now reject
+                    ok = gotc[0] in ('FAIL', 'PARTIAL')
+                else:
+                    ok = gotc == cwant
+                if not ok:
+                    return {'bucket': 'nesting-through-extension:%s' % (gotc[0] if gotc[0] != 'EXC' else 'EXC:' + gotc[1]),
+                            'expected': [cwant[0], cwant[1][:120]], 'got': [gotc[0]] + [str(x)[:160] for x in gotc[1:]],
+                            'case': case, 'input': ctext, 'spilled': info['spilled']}, info
+            finally:
+                sut.forget(child)
         # reference interpreter as a second voice at moderate depth
         if case['depth'] <= 40:
             old = sys.getrecursionlimit()
